@@ -180,6 +180,17 @@ def run_program(prog, environ, start_response, rec):
                 boom()
             rec.produced += chunks[k]
             write(chunks[k])
+        if exc and exc[0] == "late_restart":
+            # the application fails after output has begun and reports it the PEP 3333 way:
+            # start_response(..., exc_info) must re-raise, nothing of the error page may follow
+            import sys
+
+            rec.raised = exc
+            try:
+                raise make_exc(prog.get("exc_class", "ValueError"))
+            except BaseException:
+                start_response("500 Internal Server Error", [("Content-Type", "text/plain")], sys.exc_info())
+            return BodyIter(prog, rec, [b"ERRORPAGE"], False)
         if delivery == "write+list":
             return BodyList(prog, rec, chunks[nw:], True)
         return BodyIter(prog, rec, chunks[nw:], False)
